@@ -44,6 +44,9 @@ func judge(prop string, sc Scenario, out *Outcome, res *core.CaseResult, faultKi
 	}
 	if out.Converged {
 		res.AddStat("runs_converged", 1)
+		if out.NotEnoughShards > 0 {
+			res.AddStat("runs_converged_with_targets_unplaceable_at_max_shard", 1)
+		}
 		res.AddSet("convergence_cycle", fmt.Sprint(out.ConvergedAt))
 	} else {
 		class := "other"
